@@ -158,6 +158,7 @@ struct KShiftSparseMixed
 
 static int DEPTH = 3;
 static bool THOROUGH = false;
+static std::string PROP = "C03";
 static const SortRule SYM_RULES[5] = {SortRule::LargestMagn, SortRule::LargestAlge, SortRule::SmallestMagn, SortRule::SmallestAlge, SortRule::BothEnds};
 static const SortRule SYM_SORT[4] = {SortRule::LargestAlge, SortRule::LargestMagn, SortRule::SmallestAlge, SortRule::SmallestMagn};
 
@@ -209,6 +210,23 @@ static void explore(GSubject S, int nev, int ncv, int rot, Local& L, const std::
     ops.push_back(op_compute(r0, THOROUGH ? 1000 : 300, 1e-10L, SYM_SORT[rot % 4]));
     ops.push_back(op_compute(r1, 1, 1e-6L, SYM_SORT[(rot + 1) % 4]));
     ops.push_back(op_compute(r0, 0, 1e-10L, SYM_SORT[(rot + 2) % 4]));
+    if (PROP == "C06") ops.push_back(op_share(1, r0, THOROUGH ? 1000 : 300, 1e-10L, SYM_SORT[rot % 4]));
+    if (PROP != "C03")
+    {
+        // C05 / C06 for the generalized solvers: the shared bookkeeping / rerun oracles of engine/e1.h
+        try
+        {
+            S.pencil = true;
+            PropOracle<K> po(PROP, S, ops, L, replay);
+            Explorer<K> ex{S, ops, PROP == "C06" ? DEPTH - 1 : DEPTH, L};
+            ex.tail_pairs = (PROP == "C06");
+            ex.oracle = [&](const std::vector<int>& h, const Obs& b, const Obs& a, Inst<K>& inst) { po(h, b, a, inst); };
+            ex.nondet = [&](const std::string& c, const std::string& d) { L.violate(S.key + "|" + c, replay, d); };
+            ex.run();
+        }
+        catch (const std::invalid_argument&) { L.count("subject_rejected_by_operator"); }
+        return;
+    }
     try
     {
         Explorer<K> ex{S, ops, DEPTH, L};
@@ -358,7 +376,9 @@ static void run_pencil(const MatL& A, const MatL& B, const std::string& desc, ui
 int main(int argc, char** argv)
 {
     Config cfg = parse_args(argc, argv, 240, 1500);
-    Runner R("C03", cfg);
+    for (int i = 1; i < argc; i++)
+        if (std::string(argv[i]) == "--prop" && i + 1 < argc) PROP = argv[i + 1];
+    Runner R(PROP, cfg);
     const bool q = cfg.quick();
     THOROUGH = !q;
     DEPTH = q ? 3 : 4;
